@@ -254,9 +254,16 @@ def write_evidence(prop, tier, seed, level, coverage, assumptions, wall, violati
     os.makedirs(os.path.join(VERIF, "evidence"), exist_ok=True)
     ev = {"property_id": prop, "tier": tier, "seed": int(seed), "level": level, "coverage": coverage,
           "assumptions": assumptions, "wall_s": round(wall, 2), "violations": int(violations)}
-    tmp = os.path.join(VERIF, "evidence", prop + ".json.tmp")
+    name = prop + ".json"
+    if os.path.realpath(REPO) != "/repo":
+        # a run against a scratch tree (a seeded change being tried) must not overwrite what was recorded for /repo
+        d = os.path.join(WORK, "evidence-other-tree")
+        os.makedirs(d, exist_ok=True)
+        json.dump(dict(ev, tree=REPO), open(os.path.join(d, name), "w"), indent=1, sort_keys=True, default=str)
+        return
+    tmp = os.path.join(VERIF, "evidence", name + ".tmp")
     json.dump(ev, open(tmp, "w"), indent=1, sort_keys=True, default=str)
-    os.replace(tmp, os.path.join(VERIF, "evidence", prop + ".json"))
+    os.replace(tmp, os.path.join(VERIF, "evidence", name))
 
 
 def save_replay(prop, name, payload):
